@@ -205,8 +205,11 @@ def merge_and_report(prop, tier, seed, results, inconclusive, wall, replaying=Fa
         'violations': fresh_total,
     }
     if not replaying:
-        os.makedirs(os.path.join(VERIF, 'evidence'), exist_ok=True)
-        with open(os.path.join(VERIF, 'evidence', prop + '.json'), 'w') as f:
+        # runs against a scratch copy of the package (tools/mutant.sh, tools/eval_seeded.sh) must not overwrite the
+        # evidence of the real tree
+        edir = os.environ.get('VERIF_EVIDENCE_DIR') or os.path.join(VERIF, 'evidence')
+        os.makedirs(edir, exist_ok=True)
+        with open(os.path.join(edir, prop + '.json'), 'w') as f:
             json.dump(evidence, f, indent=1, sort_keys=False)
 
     for mech in sorted(m for m in mech_counts if m in listed):
